@@ -256,6 +256,10 @@ pub fn run(a: &Args) {
     for _ in 0..a.n {
         run_random_sequence(&mut out, &mut rng, "C01", &gen_cmd, 10);
     }
+    // history shapes: a few long runs on one executor
+    for _ in 0..(a.n / 1500).clamp(2, 40) {
+        run_random_sequence_len(&mut out, &mut rng, "C01", &gen_cmd, 3, Some(1500));
+    }
     crate::boundary::boundary_pass(&mut out, &mut rng, "C01", (a.n / 1000).clamp(2, 20));
     crate::boundary::coverage_table(&mut out);
     report_executor_api(&mut out, "C01");
